@@ -39,6 +39,12 @@ enum Step {
     ReteRetract(String),
     /// `engine.set_config(..)`: from here on the fresh engine is built with this configuration
     SetConfig(Cfg),
+    /// `query_aggregate("count(?x) WHERE <goal>")`: the answer compared is the returned value
+    Aggregate(Atom),
+    /// the CALLER opens / rolls back / commits an undo frame on its facts ("what-if" edits)
+    Begin,
+    Rollback,
+    Commit,
     /// (goal, negated, per-query configuration): asked through `GRLQueryExecutor::execute`, which
     /// re-applies the query's own configuration to the living engine on every call
     GrlQuery(Atom, bool, Cfg),
@@ -52,6 +58,10 @@ impl Step {
             Step::Remove(f) => json!(["remove", f]),
             Step::ReteRetract(f) => json!(["rete_retract", f]),
             Step::SetConfig(c) => json!(["set_config", cfg_to_json(c)]),
+            Step::Aggregate(a) => json!(["query_aggregate", atom_to_json(a), format!("count(?x) WHERE {}", a.text())]),
+            Step::Begin => json!(["begin_undo_frame"]),
+            Step::Rollback => json!(["rollback_undo_frame"]),
+            Step::Commit => json!(["commit_undo_frame"]),
             Step::GrlQuery(a, n, c) => json!(["grl_query", atom_to_json(a), qtext(a, *n), n, cfg_to_json(c)]),
         }
     }
@@ -63,6 +73,10 @@ impl Step {
             "remove" => Step::Remove(a.get(1)?.as_str()?.to_string()),
             "rete_retract" => Step::ReteRetract(a.get(1)?.as_str()?.to_string()),
             "set_config" => Step::SetConfig(cfg_from_json(a.get(1)?)?),
+            "query_aggregate" => Step::Aggregate(atom_from_json(a.get(1)?)?),
+            "begin_undo_frame" => Step::Begin,
+            "rollback_undo_frame" => Step::Rollback,
+            "commit_undo_frame" => Step::Commit,
             "grl_query" => Step::GrlQuery(atom_from_json(a.get(1)?)?, a.get(3).and_then(|v| v.as_bool()).unwrap_or(false), cfg_from_json(a.get(4)?)?),
             _ => return None,
         })
@@ -134,8 +148,19 @@ fn populate_rete(live: &[(String, Lit)]) -> (IncrementalEngine, Vec<(String, Fac
 #[derive(Clone, Debug, PartialEq)]
 enum Ans {
     Provable(bool),
+    /// the value an aggregate query returned, rendered
+    Value(String),
     Error,
     Panic,
+}
+
+fn ask_aggregate(engine: &mut BackwardEngine, facts: &mut Facts, a: &Atom) -> Ans {
+    let text = format!("count(?x) WHERE {}", a.text());
+    match pan::catch(|| engine.query_aggregate(&text, facts)) {
+        Ok(Ok(v)) => Ans::Value(format!("{:?}", v)),
+        Ok(Err(_)) => Ans::Error,
+        Err(_) => Ans::Panic,
+    }
 }
 
 fn ans_of(o: &QObs) -> Ans {
@@ -203,6 +228,7 @@ fn run_history(c: &HCase, rules: &[Rule]) -> Result<Run, String> {
     };
     let mut answers = Vec::new();
     let mut cur_cfg = c.cfg.clone();
+    let mut caller_frames = 0usize;
     let mut seen_query = false;
     let mut edit_after_query = false;
     let mut edits_between_queries = false;
@@ -231,6 +257,35 @@ fn run_history(c: &HCase, rules: &[Rule]) -> Result<Run, String> {
             Step::SetConfig(n) => {
                 engine.set_config(n.engine());
                 cur_cfg = n.clone();
+            }
+            Step::Aggregate(g) => {
+                let fresh_kb = make_kb(rules)?;
+                let mut fresh_engine = BackwardEngine::with_config(fresh_kb, cur_cfg.engine());
+                let mut fresh_facts = facts_from_map(&facts.get_all_facts());
+                let fresh = ask_aggregate(&mut fresh_engine, &mut fresh_facts, g);
+                let reused = ask_aggregate(&mut engine, &mut facts, g);
+                answers.push((i, reused, fresh));
+                if seen_query && edit_after_query {
+                    edits_between_queries = true;
+                }
+                seen_query = true;
+            }
+            Step::Begin => {
+                facts.begin_undo_frame();
+                caller_frames += 1;
+            }
+            Step::Rollback => {
+                if caller_frames > 0 {
+                    facts.rollback_undo_frame();
+                    caller_frames -= 1;
+                    edit_after_query |= seen_query;
+                }
+            }
+            Step::Commit => {
+                if caller_frames > 0 {
+                    facts.commit_undo_frame();
+                    caller_frames -= 1;
+                }
             }
             Step::GrlQuery(g, neg, qc) => {
                 let text = qtext(g, *neg);
@@ -268,7 +323,7 @@ fn run_history(c: &HCase, rules: &[Rule]) -> Result<Run, String> {
             }
         }
     }
-    Ok(Run { answers, edits_between_queries, leaked_frames: facts.verif_undo_depth() })
+    Ok(Run { answers, edits_between_queries, leaked_frames: facts.verif_undo_depth().saturating_sub(caller_frames) })
 }
 
 /// first query step whose reused answer differs from the fresh one
@@ -296,7 +351,14 @@ fn confirmed_mismatch(c: &HCase, rules: &[Rule], confirm: usize) -> Result<Optio
 }
 
 fn cause(c: &HCase, step: usize) -> &'static str {
+    if let Some(Step::Aggregate(g)) = c.steps.get(step) {
+        let plain_before = c.steps[..step].iter().any(|s| matches!(s, Step::Query(p, false) | Step::GrlQuery(p, false, _) if p == g));
+        return if plain_before { "aggregate-after-the-plain-query-of-its-pattern" } else { "aggregate-query" };
+    }
     if let Some(Step::Query(g, n) | Step::GrlQuery(g, n, _)) = c.steps.get(step) {
+        if !*n && c.steps[..step].iter().any(|s| matches!(s, Step::Aggregate(p) if p == g)) {
+            return "plain-query-after-an-aggregate-over-the-same-pattern";
+        }
         let text = qtext(g, *n);
         let asked_before = c.steps[..step].iter().any(|s| matches!(s, Step::Query(p, pn) | Step::GrlQuery(p, pn, _) if qtext(p, *pn) == text));
         // the engine caches verdicts by query TEXT only; a later identical text gets the old verdict
@@ -310,6 +372,9 @@ fn cause(c: &HCase, step: usize) -> &'static str {
         if reconfigured {
             return "after-set_config";
         }
+        if c.steps[..step].iter().any(|s| matches!(s, Step::Rollback)) {
+            return "after-the-caller-rolled-back-an-undo-frame";
+        }
     }
     "unexplained"
 }
@@ -317,6 +382,7 @@ fn cause(c: &HCase, step: usize) -> &'static str {
 fn violation_of(c: &HCase, m: &(usize, Ans, Ans)) -> Violation {
     let q = match c.steps.get(m.0) {
         Some(Step::Query(g, n) | Step::GrlQuery(g, n, _)) => qtext(g, *n),
+        Some(Step::Aggregate(g)) => format!("count(?x) WHERE {}", g.text()),
         _ => String::new(),
     };
     Violation {
@@ -335,7 +401,7 @@ fn violation_of(c: &HCase, m: &(usize, Ans, Ans)) -> Violation {
 }
 
 fn still_fails(c: &HCase) -> bool {
-    if !c.steps.iter().any(|s| matches!(s, Step::Query(..) | Step::GrlQuery(..))) {
+    if !c.steps.iter().any(|s| matches!(s, Step::Query(..) | Step::GrlQuery(..) | Step::Aggregate(..))) {
         return false;
     }
     let rules = build_rules_direct(&c.kb);
@@ -583,7 +649,18 @@ fn gen_history(rng: &mut Rng, plan: &Plan) -> (FactsG, Vec<Step>, bool) {
         let n_rules = plan.kb.rules.len();
         steps.insert(at, Step::SetConfig(gen_cfg_c11(rng, n_rules)));
     }
-    if rng.chance(1, 8) {
+    if rng.chance(1, 8) && !plan.chain.is_empty() {
+        // what-if: the question, then inside a caller-side undo frame an edit and the question
+        // again, then rollback (or commit) and the question once more
+        let g = rng.pick(&pool).clone();
+        let (f, v) = rng.pick(&plan.chain).clone();
+        let edit = if rng.bool() { Step::Set(f.clone(), other_lit(rng, &v)) } else { Step::Remove(f.clone()) };
+        let close = if rng.chance(3, 4) { Step::Rollback } else { Step::Commit };
+        steps = vec![Step::Set(f, v), Step::Query(g.clone(), false), Step::Begin, edit, Step::Query(g.clone(), false), close, Step::Query(g, false)];
+        if rng.bool() {
+            steps.remove(1);
+        }
+    } else if rng.chance(1, 8) {
         // the same question before and after a reconfiguration, facts untouched: a shallow or
         // breadth-first configuration first (fewer things provable), then a generous one, or the
         // other way round
@@ -606,6 +683,21 @@ fn gen_history(rng: &mut Rng, plan: &Plan) -> (FactsG, Vec<Step>, bool) {
             }
         }
     }
+    if rng.chance(1, 6) {
+        // an aggregate over the pattern of one of the goals, next to the plain query of that
+        // pattern (either order), on untouched facts
+        let g = rng.pick(&pool).clone();
+        let at = rng.below(steps.len() + 1);
+        if rng.bool() {
+            steps.insert(at, Step::Query(g.clone(), false));
+            steps.insert(at, Step::Aggregate(g));
+        } else {
+            steps.insert(at, Step::Aggregate(g.clone()));
+            steps.insert(at, Step::Query(g, false));
+        }
+        steps.truncate(7);
+        return (facts, steps, rete);
+    }
     steps.truncate(7);
     if !matches!(steps.last(), Some(Step::Query(..) | Step::GrlQuery(..))) {
         steps.pop();
@@ -621,7 +713,7 @@ impl Check for C11 {
         "C11"
     }
     fn rule(&self) -> String {
-        "random: KBs from the C09 generator (Horn rules from GRL text, chains to depth 6 plus distractors), 8 histories per KB of 2..=6 steps on ONE engine: query (from a pool of 1..=3 goals, so texts repeat), caller-side set / remove of chain roots, chain nodes and derived fields, and with an attached IncrementalEngine (1/4 of the histories) retraction of the mirrored explicit fact there; configuration: memoisation on (5/6; off 1/6 as a control), dfs 8/10, bfs, iterative, max_depth 2/4/6 or the default 10 for KBs of <= 4 rules. In 1/5 of the histories one `set_config` step with another generated configuration is inserted; in 1/8 the history is the same question before and after a reconfiguration on untouched facts (max_depth 0..=2 / bfs / iterative vs depth-first 6, either order; through set_config or through GRLQueryExecutor::execute, which re-applies a per-query configuration); in 1/8 every query goes through GRLQueryExecutor::execute with its own configuration. Before every query step a freshly built engine WITH THE CONFIGURATION IN FORCE AT THAT MOMENT answers the same query on a deep copy of the facts. exhaustive: for K generated KBs (10 quick / 50 thorough) ALL 5^4 histories of length 4 over {query q1, query q2, set root, remove root, remove the field q1 asks about} (every prefix is checked, so all shorter histories too). A history is non-trivial when it has >= 2 queries with a fact edit between two of them and at least one provable answer; distinct by structural hash. A mismatch is judged only if it reproduces identically in every one of 2..9 further runs (the engine's candidate order comes from a HashSet).".into()
+        "random: KBs from the C09 generator (Horn rules from GRL text, chains to depth 6 plus distractors), 8 histories per KB of 2..=6 steps on ONE engine: query (from a pool of 1..=3 goals, so texts repeat), caller-side set / remove of chain roots, chain nodes and derived fields, and with an attached IncrementalEngine (1/4 of the histories) retraction of the mirrored explicit fact there; configuration: memoisation on (5/6; off 1/6 as a control), dfs 8/10, bfs, iterative, max_depth 2/4/6 or the default 10 for KBs of <= 4 rules. In 1/5 of the histories one `set_config` step with another generated configuration is inserted; in 1/8 the history is the same question before and after a reconfiguration on untouched facts (max_depth 0..=2 / bfs / iterative vs depth-first 6, either order; through set_config or through GRLQueryExecutor::execute, which re-applies a per-query configuration); in 1/8 every query goes through GRLQueryExecutor::execute with its own configuration; in 1/6 an aggregate query (`count(?x) WHERE pattern`, compared by its value) stands next to the plain query of its pattern, either order; in 1/8 the history is a what-if (question, caller-side begin_undo_frame, an edit, the question, rollback or commit, the question). Before every query step a freshly built engine WITH THE CONFIGURATION IN FORCE AT THAT MOMENT answers the same query on a deep copy of the facts. exhaustive: for K generated KBs (10 quick / 50 thorough) ALL 5^4 histories of length 4 over {query q1, query q2, set root, remove root, remove the field q1 asks about} (every prefix is checked, so all shorter histories too). A history is non-trivial when it has >= 2 queries with a fact edit between two of them and at least one provable answer; distinct by structural hash. A mismatch is judged only if it reproduces identically in every one of 2..9 further runs (the engine's candidate order comes from a HashSet).".into()
     }
     fn assumptions(&self) -> Vec<String> {
         vec![
